@@ -51,20 +51,25 @@ JudgeSearch(r, ln) ==
                /\ ((r.wres = r.res /\ r.wo = r.ro /\ r.werr = r.rerr) \/ ResOk(truth, r.wres, r.wo, r.werr))
                /\ (r.ex = 2 \/ ((r.ex = 1) = (truth # {})))
       wf    == WF(r.rf)
-      cf    == Cfg(0, FALSE, PresAttrs(idx))
-      idl   == F2I(r.rf, db, cf)
-      l2res == wf /\ r.rerr = "" /\ r.ro # 2 /\ SearchIdl(r.rf, db, 0, idl) = res
-      \* explained by the transcription of the code as it is, or of the proposed repair (anchored rewrite + D2 hunk)
-      idlF  == F2I(r.rf, db, Cfg(0, TRUE, PresAttrs(idx)))
-      idlok(i) == i.k = r.ik /\ r.io # 2 /\ (i.k = "allids" \/ i.s = ResSet(r.is, r.io))
-      l2    == /\ wf
-               /\ \/ (r.rf = Rewrite(Orig(r), idx, 0) /\ idlok(idl) /\ l2res)
-                  \/ (r.rf = RewriteFixed(Orig(r), idx, 0) /\ idlok(idlF) /\ r.rerr = "" /\ r.ro # 2
-                      /\ SearchIdl(r.rf, db, 0, idlF) = res)
+      pa    == PresAttrs(idx)
+      \* current code (repair b91e119: anchored rewrite, AndNot fold keeps candidates when the excluded set is a superset)
+      idlF  == F2I(r.rf, db, Cfg(0, TRUE, pa))
+      \* code before the repair: explains observations of an old tree, and classifies a regression
+      rfo   == Rewrite(Orig(r), idx, 0)
+      cfo   == Cfg(0, FALSE, pa)
+      reso  == Search(rfo, db, 0, cfo)
+      \* an EMPTY candidate set may be reported as PartialThreshold even with threshold 0
+      \* (idlset: below_threshold(0) is true on an empty compressed set): same (empty) answer
+      idlok(i) == \/ (i.k = r.ik /\ r.io # 2 /\ (i.k = "allids" \/ i.s = ResSet(r.is, r.io)))
+                  \/ (r.ik = "pthres" /\ r.is = <<>> /\ r.io = 0 /\ res = {})
+      l2    == /\ wf /\ r.rerr = "" /\ r.ro # 2
+               /\ \/ (r.rf = RewriteFixed(Orig(r), idx, 0) /\ idlok(idlF) /\ SearchIdl(r.rf, db, 0, idlF) = res)
+                  \/ (r.rf = rfo /\ idlok(F2I(r.rf, db, cfo)) /\ reso = res)
                /\ r.wres = r.res /\ r.wo = r.ro
                /\ r.ex = (IF res # {} THEN 1 ELSE 0)
-      \* signature of an L1 failure: known structural class + whether the transcription predicts the answer
-      sig   == (IF wf THEN DefectSig(r.rf, db, cf) ELSE "malformed") \o (IF l2res THEN "/l2" ELSE "/nol2")
+      \* signature of an L1 failure: defect class of the pre-repair code + whether that code predicts this very answer
+      \* ("andnot-isolated/l2" or "andnot-partial/l2" = the repaired defect is back)
+      sig   == DefectSig(rfo, db, cfo) \o (IF r.rerr = "" /\ r.ro # 2 /\ reso = res THEN "/l2" ELSE "/nol2")
   IN /\ (l1 \/ (Tally(21) /\ PrintT(<<"L1FAIL", "C01", ln, sig>>)))
      /\ (l2 \/ (Tally(22) /\ PrintT(<<"L2DRIFT", "C01", ln>>)))
 
